@@ -327,6 +327,9 @@ def check(ctx):
         # before the caller's code can run (shared rule, stated in c05)
         from . import c05
         c05.check_duplicate_window(ctx, cfg, rule="C04.Y")
+        # the premise of every liveness obligation above: what a guard releases when it is dropped on an unwind path is exactly the range its
+        # cursors describe (C05.R, shared) - a guard whose Drop releases less leaks the partial output, one that releases more drops twice
+        c05.check_drop_ranges(ctx, cfg)
         check_local_duplicates(ctx, cfg)
         l = check_extend_callers(ctx, cfg)
         ctx.floor("C04.L", "owner-liveness obligations at foreign calls (%s)" % cfg, l, 1)
